@@ -1657,7 +1657,116 @@ fn witnesses() -> Oracle {
         }
         Ok(())
     });
+    // late failure: `Trailer::from_dict` after the revision was appended (the catalog no longer loads)
+    for (name, victim, junk) in [
+        ("late-failure-root-not-a-catalog", 1u64, dict_val(50, "NoPages")),
+        ("late-failure-page-tree-root-not-a-tree", 2u64, PVal::Int(7)),
+    ] {
+        run(name, "late-save-failure-breaks-the-document", &|| late_failure_witness(victim, &junk, false));
+        run(&format!("{}-cached", name), "late-save-failure-breaks-the-document", &|| late_failure_witness(victim, &junk, true));
+    }
     or
+}
+
+/// `save` fails after its revision was appended because object `victim` (catalog or page tree root) was replaced
+/// by `junk`; the caller repairs the object and saves again
+fn late_failure_witness(victim: u64, junk: &PVal, cached: bool) -> Result<(), String> {
+    let b = witness_base(b"junk\n", false, false);
+    let original = reload_canon(&b.bytes, victim);
+    let good: PVal = if victim == 1 {
+        PVal::Dict(vec![("Type".into(), PVal::Name("Catalog".into())), ("Pages".into(), PVal::Ref(2, 0)), ("Marker".into(), PVal::Int(52))])
+    } else {
+        PVal::Dict(vec![("Type".into(), PVal::Name("Pages".into())), ("Kids".into(), PVal::Arr(vec![])), ("Count".into(), PVal::Int(0)), ("Marker".into(), PVal::Int(53))])
+    };
+    let new3 = dict_val(51, "New");
+    // what the backend holds after the failed save (a second, identical run: `into_inner` consumes the storage)
+    let failed_backend = {
+        let (mut st, mut tr) = open_plain(&b.bytes)?;
+        st.update(PlainRef { id: victim, gen: 0 }, W(junk.clone())).map_err(|e| format!("update: {}", e))?;
+        st.update(PlainRef { id: 3, gen: 0 }, W(new3.clone())).map_err(|e| format!("update: {}", e))?;
+        if st.save(&mut tr).is_ok() {
+            return Err(format!("save succeeded although {} 0 R is {}", victim, junk.canon()));
+        }
+        st.into_inner()
+    };
+    let go = |cached: bool| -> Result<(Vec<u8>, String, String), String> {
+        if cached {
+            let mut st = Storage::with_cache(b.bytes.clone(), ParseOptions::strict(), pdf::file::SyncCache::new(), pdf::file::SyncCache::new(), NoLog).map_err(|e| format!("{}", e))?;
+            let trd = st.load_storage_and_trailer().map_err(|e| format!("{}", e))?;
+            let mut tr = Trailer::from_primitive(Primitive::Dictionary(trd), &st.resolver()).map_err(|e| format!("trailer: {}", e))?;
+            late_failure_steps(&mut st, &mut tr, victim, junk, &good, &new3)
+        } else {
+            let (mut st, mut tr) = open_plain(&b.bytes)?;
+            late_failure_steps(&mut st, &mut tr, victim, junk, &good, &new3)
+        }
+    };
+    let (bytes, mid3, midv) = go(cached)?;
+    if mid3 != new3.canon() {
+        return Err(format!("after the failed save 3 0 R reads {} in the open document, written {}", mid3, new3.canon()));
+    }
+    if midv != junk.canon() {
+        return Err(format!("after the failed save {} 0 R reads {} in the open document, written {}", victim, midv, junk.canon()));
+    }
+    if !bytes.starts_with(&b.bytes) {
+        return Err("the base file is not a prefix of the output of the retried save".into());
+    }
+    if !failed_backend.starts_with(&b.bytes) {
+        return Err("the base file is not a prefix of the backend after the failed save".into());
+    }
+    if failed_backend.len() == b.bytes.len() {
+        return Err("the save failed before anything was appended: this witness is about the failure after the write".into());
+    }
+    if !bytes.starts_with(&failed_backend) {
+        return Err(format!("the backend after the failed save ({} bytes, base {}) is not a prefix of the output of the retried save ({} bytes)", failed_backend.len(), b.bytes.len(), bytes.len()));
+    }
+    let after3 = reload_canon(&bytes, 3);
+    if after3 != new3.canon() {
+        return Err(format!("after the retried save and reload 3 0 R reads {}", after3));
+    }
+    let afterv = reload_canon(&bytes, victim);
+    if afterv != good.canon() {
+        return Err(format!("after the retried save and reload {} 0 R reads {} instead of {}", victim, afterv, good.canon()));
+    }
+    let other = if victim == 1 { 2 } else { 1 };
+    let untouched = reload_canon(&bytes, other);
+    if untouched != reload_canon(&b.bytes, other) {
+        return Err(format!("untouched {} 0 R changed: {}", other, untouched));
+    }
+    let _ = original;
+    // the bytes left by the failed save: the last revision names a catalog that does not load — a reader is told
+    // so (an error), it does not see a half-written file
+    match open_plain(&failed_backend) {
+        Ok(_) => Err("the backend left by the failed save loads although its catalog is broken".into()),
+        Err(e) if e.starts_with("trailer:") => {
+            // the table of that revision is complete: every object resolves as written
+            let mut st = Storage::with_cache(failed_backend.clone(), ParseOptions::strict(), NoCache, NoCache, NoLog).map_err(|e| format!("{}", e))?;
+            st.load_storage_and_trailer().map_err(|e| format!("table of the failed revision: {}", e))?;
+            let got = resolved_canon(&st, 3);
+            if got != new3.canon() {
+                return Err(format!("in the bytes left by the failed save 3 0 R reads {}", got));
+            }
+            Ok(())
+        }
+        Err(e) => Err(format!("the bytes left by the failed save do not even load as a table: {}", e)),
+    }
+}
+
+fn late_failure_steps<OC: Cache<OCv>, SC: Cache<SCv>>(st: &mut Storage<Vec<u8>, OC, SC, NoLog>, tr: &mut Trailer, victim: u64, junk: &PVal, good: &PVal, new3: &PVal)
+    -> Result<(Vec<u8>, String, String), String> {
+    st.update(PlainRef { id: victim, gen: 0 }, W(junk.clone())).map_err(|e| format!("update: {}", e))?;
+    st.update(PlainRef { id: 3, gen: 0 }, W(new3.clone())).map_err(|e| format!("update: {}", e))?;
+    if st.save(tr).is_ok() {
+        return Err(format!("save succeeded although {} 0 R is {}", victim, junk.canon()));
+    }
+    let mid3 = resolved_canon(st, 3);
+    let midv = resolved_canon(st, victim);
+    // a second attempt without repair fails the same way and must not make things worse
+    if st.save(tr).is_ok() {
+        return Err("the second save succeeded without a repair".into());
+    }
+    st.update(PlainRef { id: victim, gen: 0 }, W(good.clone())).map_err(|e| format!("repair: {}", e))?;
+    let bytes = st.save(tr).map_err(|e| format!("save after the catalog was repaired: {}", e))?.to_vec();
+    Ok((bytes, mid3, midv))
 }
 
 fn witness_stream_base() -> Vec<u8> {
